@@ -68,7 +68,7 @@ pub fn assemble_dc(
     s
 }
 
-fn gen_case(c: &mut Choices) -> Case {
+pub fn gen_case(c: &mut Choices) -> Case {
     let mut g = TypeGen::new(c);
     let negative = g.c.chance(1, 12);
     if negative {
